@@ -42,6 +42,10 @@ def configs(tier, seed):
   for resn in (0, 1, 10, 60):
     for s in range(n):
       cfgs.append(dict(name='res%d/%d' % (resn, s), res=resn, shard=s))
+  # a relay that normalises tagged names (TAG_RELAY_NORMALIZED): the rules still see, and the pipeline still gets, the name
+  # as it was received - normalising is the relay processor's business
+  cfgs.append(dict(name='res0/tagnorm', res=0, shard=40, tagnorm=True))
+  cfgs.append(dict(name='res60/tagnorm', res=60, shard=41, tagnorm=True))
   return cfgs
 
 
@@ -87,7 +91,10 @@ def model(dp, black, white, res, now):
 def run_config(cfg, res):
   from vlib import boot, proto, sched
   from vlib.refs import codec
-  ns = boot.boot('carbon-cache', {'MIN_TIMESTAMP_RESOLUTION': cfg['res'], 'USE_WHITELIST': True})
+  conf = {'MIN_TIMESTAMP_RESOLUTION': cfg['res'], 'USE_WHITELIST': True}
+  if cfg.get('tagnorm'):
+    conf['TAG_RELAY_NORMALIZED'] = True
+  ns = boot.boot('carbon-cache', conf)
   import carbon.protocols as P
   from carbon.regexlist import WhiteList, BlackList
   from carbon import instrumentation
